@@ -6,8 +6,9 @@
  "tier": "wip",
  "harness": "h_initialize_group_accounting",
  "loop_contracts": true,
- "unwind": 24,
- "unwind_reason": "the per-group loop carries an in-place loop contract (named anchor VERIF_INV_INITIALIZE_GROUPS, text below); the prefix of ext2fs_initialize runs for ONE concrete geometry in which the backward gotos retry / ipg_retry are not taken (unwinding assertions on); strlen/strcpy/strcat/memset run on a concrete one-character device name and a 1 KiB descriptor table",
+ "unwind": 14,
+ "unwindset": {"ext2fs_initialize.0": 2, "ext2fs_initialize.1": 2, "strcpy.0": 20, "strcat.0": 22, "strcat.1": 4, "strlen.0": 4},
+ "unwind_reason": "the per-group loop carries an in-place loop contract (named anchor VERIF_INV_INITIALIZE_GROUPS, text below); the prefix of ext2fs_initialize runs for ONE concrete geometry in which the backward gotos retry / ipg_retry are not taken (unwindset 2 each, unwinding assertions on); strlen/strcpy/strcat run on a concrete one-character device name and the two fixed 17-character bitmap labels (bounds 20/22); 14 covers the DFCC library loop over the 11 assigns targets of the loop contract",
  "functions": ["lib/ext2fs/initialize.c:ext2fs_initialize"],
  "assumes": ["NEEDS the hook in hooks-pending/geo.diff (named loop anchor VERIF_INV_INITIALIZE_GROUPS on the accounting loop of ext2fs_initialize) and the empty default for that name in include/e2fsprogs_verif.h",
              "what is proved: the base case, the inductive step and the exit of the accounting loop for ONE arbitrary ghost group verif_k, hence at return of ext2fs_initialize: bg_free_blocks_count(k) was set exactly once, to  blocks_in_group(k) - used(k) - (tables_charged_by_initialize ? 2 + inode_blocks_per_group : 0)  (32-bit arithmetic), with used(k) the count reported by ext2fs_reserve_super_and_bgd2 and blocks_in_group(k) by ext2fs_group_blocks_count",
@@ -27,7 +28,8 @@
  "tier": "obs",
  "harness": "h_initialize_group_accounting_lib",
  "loop_contracts": true,
- "unwind": 24,
+ "unwind": 14,
+ "unwindset": {"ext2fs_initialize.0": 2, "ext2fs_initialize.1": 2, "strcpy.0": 20, "strcat.0": 22, "strcat.1": 4, "strlen.0": 4},
  "unwind_reason": "as initialize_group_accounting",
  "functions": ["lib/ext2fs/initialize.c:ext2fs_initialize"],
  "assumes": ["as initialize_group_accounting WITHOUT the mke2fs precondition (EXPECTED TO FAIL: a library caller passing s_log_groups_per_flex != 0 without the FLEX_BG feature gets tables that neither ext2fs_initialize nor ext2fs_allocate_group_table charges; mke2fs never does that, so this is an observation about the library interface, not a C07 violation)"],
